@@ -47,7 +47,8 @@ def _run_unit(arg):
     modname, idx = arg
     t0 = time.time()
     try:
-        from . import execu, omap, stdmodels  # noqa: F401  (register theories)
+        from . import execu, omap, stdmodels, simobj, msd  # noqa: F401  (register theories)
+        msd.install()
         mod = importlib.import_module(modname)
         unit = mod.UNITS[idx]
         res = execu.explore(unit, max_paths=getattr(unit, "max_paths", 4000))
@@ -138,10 +139,7 @@ def run_property(pid, tier="quick", seed=0, jobs=None):
     for u in unit_results:
         have = {o["id"] for o in u["obligations"]}
         for e in u["expected"]:
-            if e.endswith("*"):
-                ok = any(h.startswith(e[:-1]) for h in have)
-            else:
-                ok = e in have
+            ok = any(h.startswith(e.rstrip("*")) for h in have)
             if not ok:
                 errors.append(f"{u['unit']}: expected obligation {e} was not generated (vacuity guard)")
         if not u["obligations"] and not u["errors"]:
